@@ -146,12 +146,15 @@ example : Spec.contains ['*', '/'] ['/', ',', '('] = false ∧
     (parseComment ['/', '*', '/', ',', '(', '*', '/', ' ', 'x']).toOption = some (['/', '*', '/', ',', '(', '*', '/'], [' ', 'x']) := by
   exact ⟨by decide +kernel, by decide +kernel⟩
 
-/-- `/*/` without a closing `*/` is Python's ValueError (`str.index`) in `parse_comment_from_sql_segment`,
-in the definition splitter and in the comment stripper of `ColumnDefinition` -/
-example : Proofs.Schema.errorOf (parseComment ['/', '*', '/']) = some .valueError ∧
+/-- `/*/` without a closing `*/`: `parse_comment_from_sql_segment` takes the comment to run to the end of the
+text, as SQLite does (repair of C07-21; before it `str.index` raised ValueError), and likewise a `--` comment
+without a newline; inside a column list - where SQLite cannot have stored such a comment - the definition
+splitter and the comment stripper of `ColumnDefinition` still answer Python's ValueError -/
+example : (parseComment ['/', '*', '/']).toOption = some (['/', '*', '/'], []) ∧
+    (parseComment ['-', '-', ' ', 'c']).toOption = some (['-', '-', ' ', 'c'], []) ∧
     Proofs.Schema.errorOf (scanJump ['/', '*', '/', ' ', 'x']) = some .valueError ∧
     Proofs.Schema.errorOf (parseColumn ['a', ' ', '/', '*', '/', ' ', 'I', 'N', 'T']) = some .valueError := by
-  exact ⟨by decide +kernel, by decide +kernel, by decide +kernel⟩
+  exact ⟨by decide +kernel, by decide +kernel, by decide +kernel, by decide +kernel⟩
 
 /-- For every string: an index returned by `get_index_of_closing_parenthesis` holds a ")". -/
 theorem closing_paren_points (s : Str) (i : Nat) (h : closingParen s = .ok i) : s[i]? = some ')' := by
